@@ -146,11 +146,20 @@ class Ctx:
                 rel = os.path.relpath(k, self.root)
                 files[rel] = v
             self._syn = {"files": files, "errors": d["errors"]}
+            self._inl_done = set()
         return self._syn
 
     def file_items(self, rel):
         f = self.syn["files"].get(rel)
-        return None if f is None else f["items"]
+        if f is None:
+            return None
+        if rel not in self._inl_done:
+            # call-site expansions (lib/inline.py), attached on first use of the file
+            from . import inline
+
+            self._inl_done.add(rel)
+            inline.attach({"files": {rel: f}})
+        return f["items"]
 
     def text(self, rel):
         if rel not in self._text:
